@@ -120,6 +120,9 @@ func main() {
 			}
 			os.Exit(2)
 		}
+		if os.Getenv("GOVC_DUMPSSA") != "" {
+			fn.WriteTo(os.Stderr)
+		}
 		r := verifyFunc(l.prog, l.spkg, l.contracts, fn, l.contracts.Funcs[*fnFlag], verifyOpts{})
 		dir := filepath.Join(*work, "fn")
 		os.RemoveAll(dir)
